@@ -287,9 +287,21 @@ def run_prefix(ctx: Ctx) -> RuleResult:
     tm = repo.func('lark.parsers.cyk:_term')
     rv = repo.func('lark.parsers.cyk:revert_cnf')
     cons = [const_str(n.args[0]) for n in rv.body_nodes() if isinstance(n, ast.Call) and norm(n.func).endswith('.startswith') and n.args]
-    sp_f = [const_str(n.left) for n in sp.body_nodes() if isinstance(n, ast.BinOp) and isinstance(n.op, ast.Mod) and const_str(n.left)
-            and const_str(n.left).startswith('__')]
-    tm_f = [const_str(n.left) for n in tm.body_nodes() if isinstance(n, ast.BinOp) and isinstance(n.op, ast.Mod) and const_str(n.left)]
+    from ..exprs import str_template as _st2
+
+    def _templates(fn):
+        """string templates built in fn ('%', .format, f-string, '+' with a literal), outermost only"""
+        out = []
+        for n in fn.body_nodes():
+            t_ = _st2(n) if isinstance(n, (ast.BinOp, ast.JoinedStr, ast.Call)) else None
+            if t_ is None or not t_[1]:
+                continue
+            if isinstance(parent(n), ast.BinOp) and _st2(parent(n)) is not None:
+                continue
+            out.append(t_[0])
+        return out
+    sp_f = [t for t in _templates(sp) if t.startswith('__')]
+    tm_f = _templates(tm)
     for what, prod, f in (('BIN split', sp_f, sp), ('TERM', tm_f, tm)):
         prod = sorted(set(prod))        # (the same format written out at several uses counts once)
         ok = len(prod) == 1 and any(c and _fmt_prefix(prod[0]).startswith(c) for c in cons)
@@ -327,8 +339,20 @@ def run_prefix(ctx: Ctx) -> RuleResult:
     if len(uses) != 1:
         raise AnalysisError('R-PREFIX-PROTOCOL: PrepareAnonTerminals.pattern: cannot find the Terminal(<name>, ...) it returns')
     nm = uses[0].args[0].id
+    # the name may be computed by a helper method of the same class (a function split in two): judge the helper
+    asg_nm = [a for a in pa.body_nodes() if isinstance(a, ast.Assign) and len(a.targets) == 1 and norm(a.targets[0]) == nm]
+    if len(asg_nm) == 1 and isinstance(asg_nm[0].value, ast.Call) and isinstance(asg_nm[0].value.func, ast.Attribute) \
+            and norm(asg_nm[0].value.func.value) == psn and pa.cls is not None and asg_nm[0].value.func.attr in pa.cls.methods:
+        h_ = pa.cls.methods[asg_nm[0].value.func.attr]
+        rnames = {norm(r.value) for r in h_.body_nodes() if isinstance(r, ast.Return) and r.value is not None}
+        if len(rnames) == 1 and all(isinstance(r.value, ast.Name) for r in h_.body_nodes() if isinstance(r, ast.Return) and r.value is not None):
+            pa = h_
+            psn = pa.self_name() or 'self'
+            nm = next(iter(rnames))
+        else:
+            raise AnalysisError('R-PREFIX-PROTOCOL: PrepareAnonTerminals: the helper %s that names the terminal does not return one local' % h_.name)
     proposals = [a for a in pa.body_nodes() if isinstance(a, ast.Assign) and len(a.targets) == 1 and norm(a.targets[0]) == nm
-                 and not isinstance(a.value, ast.Constant) and 'term_reverse' not in norm(a.value) and '__ANON' not in norm(a.value)]
+                 and not isinstance(a.value, ast.Constant) and 'term_reverse' not in norm(a.value) and '__ANON' not in norm(a.value) and norm(a.value) != nm]
     resets = [i_ for i_ in pa.body_nodes() if isinstance(i_, ast.If) and bool_relation(i_.test, ast.parse('%s in %s.term_set' % (nm, psn), mode='eval').body) == 'same'
               and any(isinstance(a, ast.Assign) and norm(a.targets[0]) == nm and norm(a.value) == 'None' for a in i_.body)]
     bad_p = []
@@ -564,6 +588,18 @@ def run_ambig_index(ctx: Ctx) -> RuleResult:
                             'derivations one is silently dropped, or a single derivation is wrapped' % (data, [('' if p_ else 'not ') + norm(t) for t, p_ in conds]),
                             construct='ambig-threshold', props=['C04', 'C20'])
     res.require_instances(n_amb, 2, "'_ambig' construction sites of the forest transformers")
+    # intermediate ambiguity is expanded exactly when ambiguity is kept (not resolved)
+    crf = repo.func('lark.parsers.earley_forest:TreeForestTransformer._call_rule_func')
+    wr = [a for a in crf.body_nodes() if isinstance(a, ast.Call) and 'AmbiguousIntermediateExpander' in norm(a)]
+    if wr:
+        conds = path_conditions(_encl(wr[0]))
+        okw = len(conds) == 1 and any((norm(t).endswith('.resolve_ambiguity') and not norm(t).startswith('not ') and not pol) or
+                                      (norm(t).startswith('not ') and norm(t).endswith('.resolve_ambiguity') and pol) for t, pol in conds)
+        res.ob('%s %s' % (crf.loc(), crf.qual), 'AmbiguousIntermediateExpander wraps the rule callback exactly when ambiguity is not resolved', okw, props=['C04', 'C20'])
+        if not okw:
+            res.finding(crf, wr[0], 'the intermediate-ambiguity expander is applied under %s, expected exactly `not self.resolve_ambiguity`: with ambiguity kept, '
+                        '_iambig / _inter helper nodes stay in the result and derivations are lost' % [('' if p_ else 'not ') + norm(t) for t, p_ in conds],
+                        construct='iambig-wrapper', props=['C04', 'C20'])
     # the product of no alternatives is the one empty combination (a node without children has one derivation, not none)
     ca = repo.func('lark.utils:combine_alternatives')
     pca = ca.positional_names()[0]
@@ -579,6 +615,38 @@ def run_ambig_index(ctx: Ctx) -> RuleResult:
     if not okc:
         res.finding(ca, ca.node, 'combine_alternatives returns %s for no lists: a tree node without children then expands to no tree at all instead of '
                     'one, and every derivation containing it disappears (or an assertion fails)' % why, construct='product-unit', props=['C04', 'C20'])
+    # CollapseAmbiguities: every callback answers with a *list* of alternatives (combine_alternatives takes the product of lists; a token --
+    # a str -- handed over bare is taken apart into its characters)
+    cab = repo.cls('lark.visitors:CollapseAmbiguities')
+
+    def _is_list(v, f_):
+        if isinstance(v, (ast.List, ast.ListComp)):
+            return True
+        if isinstance(v, ast.Call) and norm(v.func) in ('list', 'sorted'):
+            return True
+        if isinstance(v, ast.Call) and norm(v.func) == 'sum' and len(v.args) == 2 and isinstance(v.args[1], ast.List):
+            return True
+        if isinstance(v, ast.BinOp) and isinstance(v.op, ast.Add):
+            return _is_list(v.left, f_) or _is_list(v.right, f_)
+        if isinstance(v, ast.Name):
+            defs_ = [a_ for a_ in f_.body_nodes() if isinstance(a_, ast.Assign) and len(a_.targets) == 1 and norm(a_.targets[0]) == v.id]
+            return bool(defs_) and all(_is_list(a_.value, f_) for a_ in defs_)
+        return False
+    n_cb = 0
+    for mname in ('_ambig', '__default__', '__default_token__'):
+        m_ = cab.methods.get(mname)
+        if m_ is None:
+            raise AnalysisError('R-AMBIG-INDEX: CollapseAmbiguities.%s is gone' % mname)
+        rets_ = [r for r in m_.body_nodes() if isinstance(r, ast.Return)]
+        if not rets_:
+            raise AnalysisError('R-AMBIG-INDEX: CollapseAmbiguities.%s has no return' % mname)
+        n_cb += 1
+        bad_ = [r for r in rets_ if r.value is None or not _is_list(r.value, m_)]
+        res.ob('%s %s' % (m_.loc(), m_.qual), 'answers with a list of alternatives', not bad_, props=['C04'])
+        if bad_:
+            res.finding(m_, bad_[0], 'CollapseAmbiguities.%s returns %s, which is not a list of alternatives: the parent takes the product over its '
+                        'children\'s lists, so a bare token is split into its characters (or the product fails)'
+                        % (mname, norm(bad_[0].value) if bad_[0].value is not None else 'None'), construct='collapse:returns-list:%s' % mname, props=['C04'])
     for f_ in res.findings:         # everything else here is about ambiguity / index bases
         if f_.props is None:
             f_.props = ['C03', 'C04']
